@@ -2,6 +2,7 @@
   C09 — devices forward transparently and the hop limit is exact.  Property theorems only.
 -/
 import Model.HopLemmas
+import Model.Device
 namespace Props.C09
 open Model Model.Hop
 
@@ -54,6 +55,63 @@ theorem star_iff (g : GExpr) (hg : StarDropOK g) (ttl : Nat) (f : UInt8) (payloa
     simp [h, this]
   · have : f.toNat ≥ ttl := by omega
     simp [h, this]
+
+/-- *Devices forward transparently.*  A request (request id `idw`, any payload) sent by a client through any chain of
+    devices — device i with hop limit `ds[i].1`, the request arriving on its pipe `ds[i].2` — reaches the far end iff
+    every hop limit on the way allows it (device i sees i + 1 routing words), and then as: the path (one word per
+    device, most recent first), the request id, the payload — unchanged. -/
+theorem request_through_devices (P : HopSite) (hwf : WellFormed P) (ds : List (Nat × Nat)) (idw : Word) (payload : Bytes)
+    (hid : idw.top = true) (hds : ∀ d ∈ ds, d.2 < 2147483648) :
+    Device.chainReq P ds (idw.bytes ++ payload) =
+      if Device.allows ds 0 then some (flat (Device.path ds) ++ idw.bytes ++ payload) else none := by
+  have := Device.chainReq_words P hwf idw payload hid ds [] hds (by simp)
+  simpa [flat] using this
+
+/-- … and the server at the end of the chain (hop limit `ttl`, cooked REP / RESPONDENT: nothing in the header before the
+    loop) is handed exactly the payload, with the path and the request id as the backtrace its reply will carry, iff the
+    request crossed at most `ttl` connections (number of devices + 1) -/
+theorem server_behind_devices (P Ps : HopSite) (hwf : WellFormed P) (hwfs : WellFormed Ps) (ds : List (Nat × Nat)) (ttl : Nat)
+    (idw : Word) (payload : Bytes) (hid : idw.top = true) (hds : ∀ d ∈ ds, d.2 < 2147483648) :
+    (Device.chainReq P ds (idw.bytes ++ payload)).bind (recv Ps ttl []) =
+      if Device.allows ds 0 ∧ ds.length + 1 ≤ ttl then some (flat (Device.path ds) ++ idw.bytes, payload) else none := by
+  rw [request_through_devices P hwf ds idw payload hid hds]
+  by_cases ha : Device.allows ds 0 = true
+  · simp only [ha, if_true, Option.bind_some, true_and]
+    have hp : ∀ w ∈ Device.path ds, w.top = false := by
+      intro w hw
+      simp only [Device.path, List.mem_reverse, List.mem_map] at hw
+      obtain ⟨d, hd, rfl⟩ := hw
+      exact Device.pw_top d.2 (hds d hd)
+    rw [recv_words Ps hwfs ttl [] (Device.path ds) idw payload hp hid]
+    simp [Device.path]
+  · simp [ha]
+
+/-- the reply retraces the request: sent by the server with the backtrace of the request (path, request id) and any
+    payload, it leaves every device on the pipe the request had come in on — the pipes chosen, server side first, are
+    the arrival pipes in reverse — and what reaches the client's socket splits into the request id and the reply payload,
+    unchanged.  For every number of devices, all pipe ids, every request id and payload. -/
+theorem reply_retraces_request (ds : List (Nat × Nat)) (idw : Word) (reply : Bytes) (hds : ∀ d ∈ ds, d.2 < 2147483648) :
+    Device.chainRep ds.length (Device.wire (flat (Device.path ds) ++ idw.bytes, reply)) =
+        some ((ds.map (·.2)).reverse, idw.bytes ++ reply) ∧
+      Parse.recv .hdr4 0 (idw.bytes ++ reply) = some (idw.bytes, reply) := by
+  refine ⟨?_, Device.client_sees_reply idw reply⟩
+  have hps : ∀ p ∈ (ds.map (·.2)).reverse, p < 2147483648 := by
+    intro p hp
+    simp only [List.mem_reverse, List.mem_map] at hp
+    obtain ⟨d, hd, rfl⟩ := hp
+    exact hds d hd
+  have := Device.chainRep_path idw reply (ds.map (·.2)).reverse hps
+  have hpath : Device.path ds = ((ds.map (·.2)).reverse).map Device.pw := by
+    simp [Device.path, List.map_reverse]
+  simp only [List.length_reverse, List.length_map] at this
+  simp only [Device.wire, hpath, List.append_assoc] at this ⊢
+  exact this
+
+/-- non-vacuity: two devices (pipes 0x11 and 0x22 at hop limits 8), request id 0x80000001 -/
+example :
+    Device.chainReq ⟨1, .gt (.var "hops") (.var "ttl"), []⟩ [(8, 0x11), (8, 0x22)] ((Word.bytes ⟨0x80,0,0,1⟩) ++ [7, 7]) =
+      some ([0,0,0,0x22, 0,0,0,0x11, 0x80,0,0,1, 7, 7]) ∧
+    Device.chainRep 2 [0,0,0,0x22, 0,0,0,0x11, 0x80,0,0,1, 9] = some ([0x22, 0x11], [0x80,0,0,1, 9]) := by decide
 
 /-- forwarding loops die out: each crossing adds one word, so after ttl+1 crossings it is dropped -/
 theorem loop_dies (P : HopSite) (hwf : WellFormed P) (ttl : Nat) (hdr0 : Bytes) (ws : List Word) (idw : Word)
